@@ -75,6 +75,8 @@ pub struct E1Cfg {
     /// Every response to the first `lose_first` transmissions of each request is lost
     /// (deterministically, not a choice).
     pub lose_first: usize,
+    /// Every response to a request with one of these tags is lost (deterministically).
+    pub lose_tags: Vec<u16>,
     /// The `Clock` pseudo task exists (virtual time may advance to the next deadline).
     pub clock: bool,
     /// Env choice at every pending poll: abandon (drop) the request future.
@@ -104,6 +106,7 @@ impl E1Cfg {
             duplicates: false,
             loss: false,
             lose_first: 0,
+            lose_tags: Vec::new(),
             clock: false,
             abandon: false,
             retry: Retry::None,
@@ -989,7 +992,7 @@ impl World {
             self.violate(sig, msg);
             // the segment answers whatever arrives
         }
-        if nth < lose_first {
+        if nth < lose_first || self.cfg.lose_tags.contains(&tag) {
             return;
         }
         if let Some(resp) = make_response(&bytes) {
